@@ -62,7 +62,7 @@ Section Seq.
   Definition Rep (g : G) (h : nat -> option item) (tg : nat -> MsPq.tag) (n : nat) : Prop :=
     ctr g = st n /\ n <= cap /\ (forall i, cellv g i = h i) /\ (forall i, cellt g i = tg i).
   Definition SInv (g : G) (a : Aux) (tr : list (nat * ev)) : Prop :=
-    exists h tg n, Rep g h tg n /\ a 0 h tg n (phist tr).
+    (exists h tg n, Rep g h tg n /\ a 0 h tg n (phist tr)) /\ (exists fut, phist tr ++ fut = total).
 
   Notation safe := (@Conc.safe G V ev Aux asrt view SInv).
 
@@ -85,25 +85,33 @@ Section Seq.
     - rewrite cellv_set_cell. unfold upd. destruct (Nat.eqb j i); [reflexivity|apply R3].
     - rewrite cellt_set_cell. unfold upd. destruct (Nat.eqb j i); [reflexivity|apply R4].
   Qed.
+  Lemma Rep_set_ctr g h tg n m : Rep g h tg n -> m <= cap -> Rep (set_ctr g (st m)) h tg m.
+  Proof. intros (R1 & R2 & R3 & R4) Hm. split; [reflexivity|]. split; [exact Hm|]. split; assumption. Qed.
 
-  Lemma SInv_acc g a tr k o ok : SInv g a tr -> SInv g a (tr ++ Conc.tag 0 [EvAcc k o ok]).
-  Proof. intros (h & tg & n & HR & HP). exists h, tg, n. rewrite phist_app, phist_tag. cbn. rewrite app_nil_r. auto. Qed.
+  Lemma phist_silent tr t es : flat_map tok es = [] -> phist (tr ++ Conc.tag t es) = phist tr.
+  Proof. intros E. rewrite phist_app, phist_tag, E, app_nil_r. reflexivity. Qed.
+
+  Lemma SInv_silent g a tr es : flat_map tok es = [] -> SInv g a tr -> SInv g a (tr ++ Conc.tag 0 es).
+  Proof. intros E H. unfold SInv. rewrite (phist_silent tr 0 es E). exact H. Qed.
 
   (** *** the rules *)
   Lemma hsafe_stop_err {R} c P (Q0 : R -> asrt -> Prop) : safe 0 (@stop_err R c) P (optQ Q0).
   Proof.
-    unfold stop_err. destruct c as [|[|c]]; cbn [Conc.safe]; intros g a tr (h & tg & n & HR & HP) Hv; exists a;
-      (split; [exists h, tg, n; rewrite phist_app, phist_tag; cbn; rewrite app_nil_r; auto|split; [apply frame_refl|exact I]]).
+    unfold stop_err. destruct c as [|[|c]]; cbn [Conc.safe]; intros g a tr Hi Hv; exists a;
+      (split; [apply SInv_silent; [reflexivity|exact Hi]|split; [apply frame_refl|exact I]]).
   Qed.
 
   Lemma hsafe_checked {R} v (k : prog (option R)) P (Q0 : R -> asrt -> Prop) :
     (verr v = 0 -> safe 0 k P (optQ Q0)) -> safe 0 (checked v k) P (optQ Q0).
   Proof. intros H. unfold checked. destruct (verr v) as [|c] eqn:E; [apply H; reflexivity|apply hsafe_stop_err]. Qed.
 
+  (** lock()/unlock() with the plain code [bd]: the code emits nothing the client sees; it turns assertion [P]
+      into some [P'] under which the rest is safe *)
   Lemma hsafe_lock {R} lf l bd (k : V -> prog (option R)) (P : asrt) (Q0 : R -> asrt -> Prop) :
     (forall g h tg n cl, Rep g h tg n -> P h tg n cl ->
+       flat_map tok (snd (bd g)) = [] /\
        exists P' : asrt,
-         (exists h' tg' n', Rep (fst (fst (bd g))) h' tg' n' /\ P' h' tg' n' (cl ++ flat_map tok (snd (bd g)))) /\
+         (exists h' tg' n', Rep (fst (fst (bd g))) h' tg' n' /\ P' h' tg' n' cl) /\
          (verr (snd (fst (bd g))) = 0 -> safe 0 (k (unbusy (snd (fst (bd g))))) P' (optQ Q0))) ->
     safe 0 (lock_ lf l bd k) P (optQ Q0).
   Proof.
@@ -114,33 +122,36 @@ Section Seq.
     assert (Both : safe 0 (lock_outer lf l bd) P Qmid /\ safe 0 (lock_inner lf l bd) P Qmid).
     { induction lf as [|f [IHo IHi]]; [split; exact I|]. split.
       - cbn [lock_outer Conc.safe]. intros g a tr Hi Hv. unfold a_lock. destruct (lockbit g l) eqn:Hl.
-        + exists a. cbn [fst snd]. split; [apply SInv_acc; exact Hi|]. split; [apply frame_refl|].
+        + exists a. cbn [fst snd]. split; [apply SInv_silent; [reflexivity|exact Hi]|]. split; [apply frame_refl|].
           cbn [vbusy vbusyV]. rewrite Hv. exact IHi.
-        + destruct Hi as (h & tg & n & HR & HP). unfold view in Hv. rewrite Hv in HP.
-          destruct (H (set_lockbit g l true) h tg n (phist tr) (Rep_lockbit g h tg n l true HR) HP) as (P' & (h' & tg' & n' & HR' & HP') & Hk).
+        + destruct Hi as ((h & tg & n & HR & HP) & Hpre). unfold view in Hv. rewrite Hv in HP.
+          destruct (H (set_lockbit g l true) h tg n (phist tr) (Rep_lockbit g h tg n l true HR) HP) as (Hsil & P' & (h' & tg' & n' & HR' & HP') & Hk).
           destruct (bd (set_lockbit g l true)) as [[g' v] es]. cbn [fst snd] in *.
+          assert (Hph : phist (tr ++ Conc.tag 0 (EvAcc KXchg (obj_lock l) true :: es)) = phist tr) by (apply phist_silent; exact Hsil).
           exists (upda a P'). split; [|split; [apply frame_upda|]].
-          * exists h', tg', n'. split; [exact HR'|]. rewrite phist_app, phist_tag. cbn [flat_map tok app]. exact HP'.
+          * split; [exists h', tg', n'; rewrite Hph; auto|rewrite Hph; exact Hpre].
           * rewrite view_upda. cbn [vbusy unbusy Conc.safe]. apply hsafe_checked. exact Hk.
       - cbn [lock_inner Conc.safe]. intros g a tr Hi Hv. unfold a_load. cbn [fst snd]. exists a.
-        split; [apply SInv_acc; exact Hi|]. split; [apply frame_refl|]. rewrite Hv.
+        split; [apply SInv_silent; [reflexivity|exact Hi]|]. split; [apply frame_refl|]. rewrite Hv.
         destruct (lockbit g l); cbn [vbusy vbusyV v0]; assumption. }
     apply Both.
   Qed.
 
   Lemma hsafe_unlock {R} l bd (k : V -> prog (option R)) (P : asrt) (Q0 : R -> asrt -> Prop) :
     (forall g h tg n cl, Rep g h tg n -> P h tg n cl ->
+       flat_map tok (snd (bd g)) = [] /\
        exists P' : asrt,
-         (exists h' tg' n', Rep (fst (fst (bd g))) h' tg' n' /\ P' h' tg' n' (cl ++ flat_map tok (snd (bd g)))) /\
+         (exists h' tg' n', Rep (fst (fst (bd g))) h' tg' n' /\ P' h' tg' n' cl) /\
          (verr (snd (fst (bd g))) = 0 -> safe 0 (k (snd (fst (bd g)))) P' (optQ Q0))) ->
     safe 0 (unlock_ l bd k) P (optQ Q0).
   Proof.
-    intros H. unfold unlock_, unlock. cbn [Conc.bind Conc.safe]. intros g a tr (h & tg & n & HR & HP) Hv.
+    intros H. unfold unlock_, unlock. cbn [Conc.bind Conc.safe]. intros g a tr ((h & tg & n & HR & HP) & Hpre) Hv.
     unfold view in Hv. rewrite Hv in HP.
-    destruct (H g h tg n (phist tr) HR HP) as (P' & (h' & tg' & n' & HR' & HP') & Hk). unfold a_unlock.
+    destruct (H g h tg n (phist tr) HR HP) as (Hsil & P' & (h' & tg' & n' & HR' & HP') & Hk). unfold a_unlock.
     destruct (bd g) as [[g' v] es]. cbn [fst snd] in *.
+    assert (Hph : phist (tr ++ Conc.tag 0 (EvAcc KSt (obj_lock l) true :: es)) = phist tr) by (apply phist_silent; exact Hsil).
     exists (upda a P'). split; [|split; [apply frame_upda|]].
-    - exists h', tg', n'. split; [apply Rep_lockbit; exact HR'|]. rewrite phist_app, phist_tag. cbn [flat_map tok app]. exact HP'.
+    - split; [exists h', tg', n'; rewrite Hph; split; [apply Rep_lockbit; exact HR'|exact HP']|rewrite Hph; exact Hpre].
     - rewrite view_upda. apply hsafe_checked. exact Hk.
   Qed.
 
@@ -148,22 +159,266 @@ Section Seq.
   Lemma hsafe_lock_none {R} lf l (k : V -> prog (option R)) P (Q0 : R -> asrt -> Prop) :
     safe 0 (k v0) P (optQ Q0) -> safe 0 (lock_ lf l body_none k) P (optQ Q0).
   Proof.
-    intros H. apply hsafe_lock. intros g h tg n cl HR HP. exists P. cbn. split; [|intros _; exact H].
-    exists h, tg, n. rewrite app_nil_r. auto.
+    intros H. apply hsafe_lock. intros g h tg n cl HR HP. split; [reflexivity|]. exists P. cbn. split; [|intros _; exact H].
+    exists h, tg, n. auto.
   Qed.
   Lemma hsafe_unlock_none {R} l (k : V -> prog (option R)) P (Q0 : R -> asrt -> Prop) :
     safe 0 (k v0) P (optQ Q0) -> safe 0 (unlock_ l body_none k) P (optQ Q0).
   Proof.
-    intros H. apply hsafe_unlock. intros g h tg n cl HR HP. exists P. cbn. split; [|intros _; exact H].
-    exists h, tg, n. rewrite app_nil_r. auto.
+    intros H. apply hsafe_unlock. intros g h tg n cl HR HP. split; [reflexivity|]. exists P. cbn. split; [|intros _; exact H].
+    exists h, tg, n. auto.
   Qed.
 
+  (** client-visible events: the new history must still be a prefix of [total] *)
   Lemma hsafe_emit {R} es (k : prog R) (P : asrt) (Q : R -> asrt -> Prop) :
-    (forall h tg n cl, P h tg n cl -> exists P' : asrt, P' h tg n (cl ++ flat_map tok es) /\ safe 0 k P' Q) ->
+    (forall h tg n cl, P h tg n cl ->
+       (exists fut, (cl ++ flat_map tok es) ++ fut = total) /\
+       exists P' : asrt, P' h tg n (cl ++ flat_map tok es) /\ safe 0 k P' Q) ->
     safe 0 (Emit es k) P Q.
   Proof.
-    intros H. cbn [Conc.safe]. intros g a tr (h & tg & n & HR & HP) Hv. unfold view in Hv. rewrite Hv in HP.
-    destruct (H h tg n (phist tr) HP) as (P' & HP' & Hk). exists (upda a P'). split; [|split; [apply frame_upda|exact Hk]].
-    exists h, tg, n. split; [exact HR|]. rewrite phist_app, phist_tag. exact HP'.
+    intros H. cbn [Conc.safe]. intros g a tr ((h & tg & n & HR & HP) & Hpre) Hv. unfold view in Hv. rewrite Hv in HP.
+    destruct (H h tg n (phist tr) HP) as (Hfut & P' & HP' & Hk). exists (upda a P'). split; [|split; [apply frame_upda|exact Hk]].
+    unfold SInv. rewrite phist_app, phist_tag. split; [exists h, tg, n; auto|exact Hfut].
+  Qed.
+
+  (** *** assertions *)
+  Definition Msp (h : nat -> option item) (s : list Z) (n : nat) : Prop :=
+    Permutation (prios cap h) s /\ List.length s = n.
+  (** [UpA 0 s fut] is the quiescent assertion: a well-formed heap holding the priorities [s] *)
+  Definition UpA (i : nat) (s : list Z) (fut : list (list Z)) : asrt :=
+    fun h tg n cl => UpInv i n h tg /\ Msp h s n /\ cl ++ fut = total.
+  Definition DownA (p : nat) (s : list Z) (fut : list (list Z)) : asrt :=
+    fun h tg n cl => DownInv p n h tg /\ Msp h s n /\ cl ++ fut = total.
+
+  Lemma upd_id {X} (f : nat -> X) i k : upd f i (f i) k = f k.
+  Proof. unfold upd. destruct (Nat.eqb_spec k i); [subst; reflexivity|reflexivity]. Qed.
+
+  Lemma Msp_ext h h' s n : (forall k, h' k = h k) -> Msp h s n -> Msp h' s n.
+  Proof. intros E [M1 M2]. split; [rewrite (prios_ext cap OK SH h h' E); exact M1|exact M2]. Qed.
+
+  (** *** heapify_after_push *)
+  Lemma hsafe_heapify_push lf s fut : forall hf i,
+    safe 0 (heapify_push hf lf 0 i) (UpA i s fut) (optQ (fun _ l' => l' = UpA 0 s fut)).
+  Proof.
+    induction hf as [|hf IH]; intros i; [exact I|]. cbn [heapify_push].
+    destruct (Nat.ltb 1 i) eqn:E1.
+    - apply Nat.ltb_lt in E1. set (p := Nat.div2 i).
+      assert (Hpi : p < i) by (apply div2_lt; lia).
+      apply hsafe_lock_none. apply hsafe_lock. intros g h tg n cl HR (HU & HM & HH).
+      pose proof HR as (R1 & R2 & R3 & R4). unfold cellv, cellt in R3, R4.
+      pose proof HU as (HO & HE & HA & HI & Hord & Hgr).
+      destruct (HI ltac:(lia)) as [Hi1 Hi2].
+      assert (Hpo : h p <> None) by (apply (parent_occupied cap OK SH n h i R2 HO); [lia|exact Hi1]).
+      assert (Hpt : tg p = TAvail) by (apply HA; [exact Hpo|lia]).
+      assert (Ri : 1 <= i <= cap) by (apply (Occ_range cap OK SH n h i R2 HO Hi1)).
+      assert (Rp : 1 <= p <= cap) by (apply (Occ_range cap OK SH n h p R2 HO Hpo)).
+      assert (Hex : exists a b, h i = Some a /\ h p = Some b).
+      { destruct (h i) as [a|]; [|congruence]. destruct (h p) as [b|]; [|congruence]. eauto. }
+      destruct Hex as (a & b & Ea & Eb).
+      unfold body_sift_up. cbv zeta. rewrite !R3, !R4. fold p. rewrite Hpt, Hi2, Ea, Eb. cbn [tag_eqb andb Nat.eqb].
+      destruct (Z.gtb (prio a) (prio b)) eqn:Egt; cbn [fst snd flat_map]; (split; [reflexivity|]).
+      + exists (UpA p s fut). split.
+        * exists (upd (upd h i (Some b)) p (Some a)), (upd (upd tg i TAvail) p (TOwner 0)), n. split.
+          -- apply Rep_set_cell. apply Rep_set_cell. exact HR.
+          -- split; [|split; [|exact HH]].
+             ++ pose proof (UpInv_swap cap OK SH i n h tg a b R2 ltac:(lia) HU Ea Eb ltac:(lia)) as K.
+                fold p in K. rewrite Ea, Eb, Hpt, Hi2 in K. exact K.
+             ++ destruct HM as [M1 M2]. split; [|exact M2].
+                pose proof (prios_swap cap OK SH h i p Ri Rp ltac:(lia)) as K. rewrite Ea, Eb in K. rewrite K. exact M1.
+        * intros _. cbn [unbusy vn]. apply hsafe_unlock_none. apply hsafe_unlock_none. apply IH.
+      + exists (UpA 0 s fut). split.
+        * exists (upd h i (Some a)), (upd tg i TAvail), n. split; [apply Rep_set_cell; exact HR|].
+          split; [|split; [|exact HH]].
+          -- pose proof (UpInv_stop cap OK SH i n h tg a b ltac:(lia) HU Ea Eb ltac:(lia)) as K. rewrite Ea in K. exact K.
+          -- apply (Msp_ext h); [|exact HM]. intros k. rewrite <- Ea. apply upd_id.
+        * intros _. cbn [unbusy vn]. apply hsafe_unlock_none. apply hsafe_unlock_none. apply IH.
+    - apply Nat.ltb_ge in E1. destruct (Nat.eqb_spec i 1) as [->|N1].
+      + apply hsafe_lock. intros g h tg n cl HR (HU & HM & HH).
+        pose proof HR as (R1 & R2 & R3 & R4). unfold cellv, cellt in R3, R4.
+        pose proof HU as (HO & HE & HA & HI & Hord & Hgr). destruct (HI ltac:(lia)) as [Hi1 Hi2].
+        unfold body_push_top. cbv zeta. rewrite !R3, !R4, Hi2. cbn [tag_eqb Nat.eqb fst snd flat_map]. split; [reflexivity|].
+        exists (UpA 0 s fut). split.
+        * exists (upd h 1 (h 1)), (upd tg 1 TAvail), n. split; [apply Rep_set_cell; exact HR|].
+          split; [apply (UpInv_top cap OK SH); exact HU|split; [|exact HH]]. apply (Msp_ext h); [|exact HM]. intros k. apply upd_id.
+        * intros _. apply hsafe_unlock_none. reflexivity.
+      + assert (i = 0) by lia. subst i. reflexivity.
+  Qed.
+
+  (** *** heapify_after_pop *)
+  Definition IsMax (h : nat -> option item) (p ch : nat) : Prop :=
+    (ch = 2 * p \/ ch = S (2 * p)) /\ h ch <> None /\
+    (forall k x m, 2 <= k -> Nat.div2 k = p -> h k = Some x -> h ch = Some m -> (prio x <= prio m)%Z).
+
+  (** the comparison of the chosen child with the parent *)
+  Lemma cmp_swap_step g h tg n cl p ch s fut :
+    Rep g h tg n -> DownA p s fut h tg n cl -> IsMax h p ch ->
+    snd (cmp_swap p ch g) = [] /\ verr (snd (fst (cmp_swap p ch g))) = 0 /\
+    if vb (snd (fst (cmp_swap p ch g)))
+    then exists h' tg', Rep (fst (fst (cmp_swap p ch g))) h' tg' n /\ DownA ch s fut h' tg' n cl
+    else fst (fst (cmp_swap p ch g)) = g /\ UpA 0 s fut h tg n cl.
+  Proof.
+    intros HR (HD & HM & HH) (Hch & Hcv & Hmax).
+    pose proof HR as (R1 & R2 & R3 & R4). unfold cellv, cellt in R3, R4.
+    pose proof HD as (HO & HT & Hp & Hpv & Hord & Hgr).
+    assert (Hex : exists m v, h ch = Some m /\ h p = Some v).
+    { destruct (h ch) as [m|]; [|congruence]. destruct (h p) as [v|]; [|congruence]. eauto. }
+    destruct Hex as (m & v & Em & Ev).
+    assert (Rp : 1 <= p <= cap) by (apply (Occ_range cap OK SH n h p R2 HO Hpv)).
+    assert (Rc : 1 <= ch <= cap) by (apply (Occ_range cap OK SH n h ch R2 HO Hcv)).
+    unfold cmp_swap. cbv zeta. rewrite !R3, !R4, Em, Ev.
+    destruct (Z.gtb (prio m) (prio v)) eqn:Egt; cbn [fst snd vb verr]; (split; [reflexivity|split; [reflexivity|]]).
+    - exists (upd (upd h p (Some m)) ch (Some v)), (upd (upd tg p (tg ch)) ch (tg p)). split.
+      + apply Rep_set_cell. apply Rep_set_cell. exact HR.
+      + split; [|split; [|exact HH]].
+        * pose proof (DownInv_swap cap OK SH p ch n h tg m v R2 HD Hch Em Ev ltac:(lia)) as K. rewrite Em, Ev in K.
+          apply K. intros k x Hk Hd Hx. apply (Hmax k x m Hk Hd Hx Em).
+        * destruct HM as [M1 M2]. split; [|exact M2].
+          pose proof (prios_swap cap OK SH h p ch Rp Rc ltac:(destruct Hch; lia)) as K. rewrite Em, Ev in K. rewrite K. exact M1.
+    - split; [reflexivity|]. split; [|split; [exact HM|exact HH]]. apply (Good_UpInv0 cap OK SH).
+      apply (DownInv_stop cap OK SH p n h tg HD). intros k x y Hk Hd Hx Hy. rewrite Ev in Hy. inversion Hy; subst y.
+      pose proof (Hmax k x m Hk Hd Hx Em). lia.
+  Qed.
+
+  Lemma hsafe_heapify_pop lf s fut : forall hf p c, c = 2 * p ->
+    safe 0 (heapify_pop hf lf cap p c) (DownA p s fut) (optQ (fun _ l' => l' = UpA 0 s fut)).
+  Proof.
+    induction hf as [|hf IH]; intros p c Hc; [exact I|]. cbn [heapify_pop].
+    destruct (Nat.ltb c (bufsize cap)) eqn:Ec.
+    - apply Nat.ltb_lt in Ec. unfold bufsize in Ec.
+      apply hsafe_lock. intros g h tg n cl HR HD0. pose proof HD0 as (HD & HM & HH).
+      pose proof HR as (R1 & R2 & R3 & R4). unfold cellv, cellt in R3, R4.
+      pose proof HD as (HO & [HE HA] & Hp & Hpv & Hord & Hgr).
+      unfold body_child. cbv zeta. rewrite !R4.
+      destruct (h c) as [l|] eqn:El.
+      + assert (Htc : tg c = TAvail) by (apply HA; rewrite El; discriminate). rewrite Htc. cbn [tag_eqb].
+        destruct (Nat.ltb (S c) (bufsize cap)) eqn:Er.
+        * (* the right sibling exists in the buffer: lock it *)
+          cbn [fst snd flat_map]. split; [reflexivity|].
+          exists (fun h' tg' n' cl' => DownA p s fut h' tg' n' cl' /\ h' c <> None). split.
+          { exists h, tg, n. split; [exact HR|]. split; [exact HD0|]. rewrite El. discriminate. }
+          intros _. cbn [unbusy vn].
+          apply hsafe_lock. intros g2 h2 tg2 n2 cl2 HR2 (HD2 & Hc2). pose proof HD2 as (HDD & _ & _).
+          pose proof HR2 as (S1 & S2 & S3 & S4). unfold cellv, cellt in S3, S4.
+          pose proof HDD as (HO2 & [HE2 HA2] & Hp2 & _).
+          assert (Hex : exists l2, h2 c = Some l2) by (destruct (h2 c) as [l2|]; [eauto|congruence]). destruct Hex as [l2 El2].
+          unfold body_right. cbv zeta. rewrite !S3, !S4, El2.
+          assert (Hkids : forall k, 2 <= k -> Nat.div2 k = p -> k = c \/ k = S c).
+          { intros k Hk Hd. destruct (div2_children k p Hp2 Hd); [left|right]; lia. }
+          destruct (h2 (S c)) as [r|] eqn:Er2.
+          -- assert (Htr : tg2 (S c) = TAvail) by (apply HA2; rewrite Er2; discriminate). rewrite Htr. cbn [tag_eqb negb fst snd flat_map].
+             split; [reflexivity|].
+             set (w := Z.gtb (prio r) (prio l2)).
+             exists (fun h' tg' n' cl' => DownA p s fut h' tg' n' cl' /\ IsMax h' p (if w then S c else c)). split.
+             { exists h2, tg2, n2. split; [exact HR2|]. split; [exact HD2|]. split; [destruct w; [right|left]; lia|]. split.
+               - destruct w; [rewrite Er2|rewrite El2]; discriminate.
+               - intros k x m Hk Hd Hx Hm. subst w. destruct (Z.gtb (prio r) (prio l2)) eqn:Egt.
+                 + rewrite Er2 in Hm. inversion Hm; subst m. destruct (Hkids k Hk Hd) as [-> | ->].
+                   * rewrite El2 in Hx. inversion Hx; subst x. lia.
+                   * rewrite Er2 in Hx. inversion Hx; subst x. lia.
+                 + rewrite El2 in Hm. inversion Hm; subst m. destruct (Hkids k Hk Hd) as [-> | ->].
+                   * rewrite El2 in Hx. inversion Hx; subst x. lia.
+                   * rewrite Er2 in Hx. inversion Hx; subst x. lia. }
+             intros _. cbn [unbusy vb].
+             apply hsafe_unlock. intros g3 h3 tg3 n3 cl3 HR3 (HD3 & HI3).
+             destruct (cmp_swap_step g3 h3 tg3 n3 cl3 p _ s fut HR3 HD3 HI3) as (K1 & K2 & K3).
+             split; [rewrite K1; reflexivity|].
+             destruct (vb (snd (fst (cmp_swap p (if w then S c else c) g3)))).
+             ++ destruct K3 as (h' & tg' & HR' & HD'). exists (DownA (if w then S c else c) s fut). split; [eauto|].
+                intros _. apply hsafe_unlock_none. apply IH. reflexivity.
+             ++ destruct K3 as (Eg & HU). exists (UpA 0 s fut). split; [exists h3, tg3, n3; rewrite Eg; auto|].
+                intros _. apply hsafe_unlock_none. apply hsafe_unlock_none. reflexivity.
+          -- assert (Htr : tg2 (S c) = TEmpty) by (apply HE2; exact Er2). rewrite Htr. cbn [tag_eqb negb fst snd flat_map].
+             split; [reflexivity|].
+             exists (fun h' tg' n' cl' => DownA p s fut h' tg' n' cl' /\ IsMax h' p c). split.
+             { exists h2, tg2, n2. split; [exact HR2|]. split; [exact HD2|]. split; [left; lia|]. split; [rewrite El2; discriminate|].
+               intros k x m Hk Hd Hx Hm. rewrite El2 in Hm. inversion Hm; subst m. destruct (Hkids k Hk Hd) as [-> | ->].
+               - rewrite El2 in Hx. inversion Hx; subst x. lia.
+               - rewrite Er2 in Hx. discriminate. }
+             intros _. cbn [unbusy vb].
+             apply hsafe_unlock. intros g3 h3 tg3 n3 cl3 HR3 (HD3 & HI3).
+             destruct (cmp_swap_step g3 h3 tg3 n3 cl3 p c s fut HR3 HD3 HI3) as (K1 & K2 & K3).
+             split; [rewrite K1; reflexivity|].
+             destruct (vb (snd (fst (cmp_swap p c g3)))).
+             ++ destruct K3 as (h' & tg' & HR' & HD'). exists (DownA c s fut). split; [eauto|].
+                intros _. apply hsafe_unlock_none. apply IH. reflexivity.
+             ++ destruct K3 as (Eg & HU). exists (UpA 0 s fut). split; [exists h3, tg3, n3; rewrite Eg; auto|].
+                intros _. apply hsafe_unlock_none. apply hsafe_unlock_none. reflexivity.
+        * (* no right sibling inside the buffer: compare the left child at once *)
+          apply Nat.ltb_ge in Er. unfold bufsize in Er.
+          assert (HI : IsMax h p c).
+          { split; [left; exact Hc|]. split; [rewrite El; discriminate|]. intros k x m Hk Hd Hx Hm.
+            destruct (div2_children k p Hp Hd) as [-> | ->]; [rewrite <- Hc, El in Hx; rewrite El in Hm; inversion Hx; inversion Hm; subst; lia|].
+            exfalso. assert (h (S (2 * p)) <> None) by (rewrite Hx; discriminate).
+            pose proof (Occ_range cap OK SH n h _ R2 HO H). lia. }
+          destruct (cmp_swap_step g h tg n cl p c s fut HR HD0 HI) as (K1 & K2 & K3).
+          destruct (cmp_swap p c g) as [[g' v] es]. cbn [fst snd] in *. subst es. split; [reflexivity|].
+          destruct (vb v).
+          -- destruct K3 as (h' & tg' & HR' & HD'). exists (DownA c s fut). split; [eauto|].
+             intros _. cbn [unbusy vn]. apply hsafe_unlock_none. apply IH. reflexivity.
+          -- destruct K3 as (Eg & HU). exists (UpA 0 s fut). split; [exists h, tg, n; rewrite Eg; auto|].
+             intros _. cbn [unbusy vn]. apply hsafe_unlock_none. apply hsafe_unlock_none. reflexivity.
+      + (* the left child is empty: p is a leaf *)
+        assert (Htc : tg c = TEmpty) by (apply HE; exact El). rewrite Htc. cbn [tag_eqb fst snd flat_map]. split; [reflexivity|].
+        exists (UpA 0 s fut). split.
+        { exists h, tg, n. split; [exact HR|]. split; [|split; [exact HM|exact HH]]. apply (Good_UpInv0 cap OK SH).
+          apply (DownInv_leaf cap OK SH p n h tg R2 HD). rewrite <- Hc. exact El. }
+        intros _. cbn [unbusy vn]. apply hsafe_unlock_none. apply hsafe_unlock_none. reflexivity.
+    - apply Nat.ltb_ge in Ec. unfold bufsize in Ec.
+      apply hsafe_unlock. intros g h tg n cl HR (HD & HM & HH). cbn [body_none fst snd flat_map]. split; [reflexivity|].
+      pose proof HR as (R1 & R2 & R3 & R4).
+      exists (UpA 0 s fut). split.
+      { exists h, tg, n. split; [exact HR|]. split; [|split; [exact HM|exact HH]]. apply (Good_UpInv0 cap OK SH).
+        apply (DownInv_nochild cap OK SH p n h tg R2 HD). lia. }
+      intros _. reflexivity.
+  Qed.
+
+  (** *** push *)
+  Lemma bc_st_nat n : bc (st n) = Z.of_nat n.
+  Proof. apply bc_st. Qed.
+
+  Lemma hsafe_push hf lf x s fut :
+    safe 0 (push cap hf lf 0 x) (UpA 0 s (push_tok cap s :: fut))
+      (optQ (fun b l' => l' = UpA 0 (fst (bpq_step cap s (Push (prio x)))) (push_tok cap s :: fut) /\
+                         push_tok cap s = [2%Z; bz b])).
+  Proof.
+    unfold push. apply hsafe_lock. intros g h tg n cl HR HU0. pose proof HU0 as (HU & HM & HH).
+    pose proof HR as (R1 & R2 & R3 & R4). destruct HM as [M1 M2].
+    unfold body_push_size. rewrite R1, bc_st_nat.
+    destruct (Z.leb (Z.of_nat cap) (Z.of_nat n)) eqn:Efull.
+    - (* full *)
+      apply Z.leb_le in Efull. assert (En : n = cap) by lia.
+      assert (Hlt : Nat.ltb (List.length s) cap = false) by (apply Nat.ltb_ge; lia).
+      cbn [fst snd flat_map tok]. split; [reflexivity|].
+      exists (UpA 0 s (push_tok cap s :: fut)). split; [exists h, tg, n; split; [exact HR|exact HU0]|]. intros _. cbn [unbusy vb].
+      apply hsafe_unlock_none. cbn [optQ]. split; [|unfold push_tok; rewrite Hlt; reflexivity].
+      unfold bpq_step. rewrite Hlt. reflexivity.
+    - (* a slot is reserved *)
+      apply Z.leb_gt in Efull. assert (Hn : S n <= cap) by lia.
+      assert (Hlt : Nat.ltb (List.length s) cap = true) by (apply Nat.ltb_lt; lia).
+      assert (Hs' : fst (bpq_step cap s (Push (prio x))) = prio x :: s) by (unfold bpq_step; rewrite Hlt; reflexivity).
+      rewrite Hs'.
+      destruct (brc_inc (st n)) as [sl c'] eqn:Einc.
+      assert (Esl : Z.to_nat sl = slot (S n)) by (rewrite slot_S, Einc; reflexivity).
+      assert (Ec' : c' = st (S n)) by (cbn [st]; rewrite Einc; reflexivity).
+      set (i := slot (S n)) in *. rewrite Esl.
+      assert (Ri : 1 <= i <= cap) by (apply (slot_range cap OK); lia).
+      assert (Hin : Nat.ltb i (bufsize cap) = true) by (apply Nat.ltb_lt; unfold bufsize; lia). rewrite Hin.
+      cbn [fst snd flat_map]. split; [reflexivity|].
+      pose proof (UpInv0_Good cap OK SH n h tg R2 HU) as HG.
+      destruct (UpInv_store cap OK SH n h tg x Hn HG) as [Hfree HUs]. fold i in Hfree, HUs.
+      exists (fun h' tg' n' cl' => n' = S n /\ UpA 0 s (push_tok cap s :: fut) h' tg' n cl'). split.
+      { exists h, tg, (S n). split; [|split; [reflexivity|exact HU0]]. subst c'. apply Rep_set_ctr; [exact HR|exact Hn]. }
+      intros _. cbn [unbusy vb vn]. apply hsafe_lock_none.
+      apply hsafe_unlock. intros g2 h2 tg2 n2 cl2 HR2 (En2 & HU2 & [M21 M22] & HH2). subst n2.
+      cbn [body_push_store fst snd flat_map]. split; [reflexivity|].
+      exists (UpA i (prio x :: s) (push_tok cap s :: fut)). split.
+      { exists (upd h2 i (Some x)), (upd tg2 i (TOwner 0)), (S n). split; [apply Rep_set_cell; exact HR2|].
+        pose proof (UpInv0_Good cap OK SH n h2 tg2 R2 HU2) as HG2.
+        destruct (UpInv_store cap OK SH n h2 tg2 x Hn HG2) as [Hfree2 HUs2]. fold i in Hfree2, HUs2.
+        split; [exact HUs2|]. split; [|exact HH2]. split; [|cbn [List.length]; lia].
+        rewrite (prios_store cap OK SH h2 i x Ri Hfree2). apply perm_skip. exact M21. }
+      intros _. apply hsafe_unlock_none. unfold obind. apply Conc.safe_bind.
+      eapply Conc.safe_weaken; [|apply hsafe_heapify_push]. intros [[]|] l' Hl'; cbn in Hl' |- *; [|exact I].
+      split; [exact Hl'|unfold push_tok; rewrite Hlt; reflexivity].
   Qed.
 End Seq.
